@@ -17,6 +17,11 @@ variable {δ ι : Type}
 
 structure FactsOK (f : Facts) : Prop where
   allReload : f.phasesWithoutReload = []
+  /-- `reload()` is `reset(); initialize()` and `reset` replaces every index field by a fresh value:
+      what the model writes as `reload s = { s with idx := analyze s.doc }` (nothing of the previous
+      analysis survives) -/
+  resetComplete : f.resetStale = []
+  reloadIsResetThenInit : f.reloadSkeleton = ["s.reset()", "s.initialize()"]
 
 theorem step_inSync (analyze : δ → ι) (s : St δ ι) (e : Ev δ) (_h : InSync analyze s) :
     InSync analyze (step analyze s e) := by
